@@ -164,7 +164,7 @@ def base_inputs(tier, seed):
             cfg_ex.append(_mk("test/cfg/%s@%d" % (base, k), "cfg", base, {base: ex}, args))
     if tier == "quick":
         rng.shuffle(cfg_ex)
-        cfg_ex = sorted(cfg_ex[:70], key=lambda x: x["label"])
+        cfg_ex = sorted(cfg_ex[:50], key=lambda x: x["label"])
     inputs += cfg_ex
     # thorough: real-world C++ (classes, templates, lambdas): excerpts of cppcheck's own sources
     if tier != "quick":
@@ -179,7 +179,7 @@ def base_inputs(tier, seed):
     for name, text in sorted(IFDEF_FILES.items()):
         inputs.append(_mk("ifdef/" + name, "ifdef", name, {name: text}, []))
     pool = [x for x in cfg_ex if x["stratum"] == "cfg"]
-    for k in range(12 if tier == "quick" else 150):
+    for k in range(8 if tier == "quick" else 150):
         src = pool[rng.randrange(len(pool))]
         text = src["files"][src["main"]]
         items = srcsplit.split_items(text)
@@ -221,7 +221,7 @@ def generated_programs(tier, seed):
     """Small generated programs (expression statements, branches, loops) in C and C++."""
     rng = random.Random(seed * 31 + 5)
     res = []
-    for k in range(10 if tier == "quick" else 120):
+    for k in range(8 if tier == "quick" else 120):
         cpp = k % 2 == 1
         lines = ["struct S { int m; };", "int f(...);" if cpp else "int f();",
                  "int g(int a, int b, int c, int *p, struct S s, struct S *q)", "{", "  int x = 0;"]
@@ -240,7 +240,7 @@ def generated_programs(tier, seed):
 def mutants(inputs, tier, seed):
     rng = random.Random(seed * 7919 + 13)
     res = []
-    n = 90 if tier == "quick" else 3000
+    n = 60 if tier == "quick" else 3000
     for k in range(n):
         src = inputs[rng.randrange(len(inputs))]
         text = src["files"][src["main"]]
